@@ -94,8 +94,10 @@ pub fn swarm(rng: &mut Rng, flavor: Flavor, max_len: usize) -> Swarm {
         }
     }
     // length scale: many short runs, some long ones
-    let scales = [3usize, 6, 10, 16, 32, 64, 128, 512, 2048, 4096];
-    let scale_w = [6u32, 10, 10, 8, 8, 6, 4, 2, 1, 1];
+    // the last two scales straddle common buffer thresholds (1 KiB, 8 KiB, 64 KiB); rare, because
+    // such runs cost a thousand short ones
+    let scales = [3usize, 6, 10, 16, 32, 64, 128, 512, 2048, 4096, 20_000, 70_000];
+    let scale_w = [600u32, 1000, 1000, 800, 800, 600, 400, 200, 100, 100, 12, 6];
     let scale = scales[rng.weighted(&scale_w)].min(max_len.max(1));
     let target_len = rng.range(0, scale);
     Swarm { weights, target_len }
@@ -104,7 +106,7 @@ pub fn swarm(rng: &mut Rng, flavor: Flavor, max_len: usize) -> Swarm {
 pub fn workload(rng: &mut Rng, flavor: Flavor, max_len: usize) -> Workload {
     let sw = swarm(rng, flavor, max_len);
     let mut wl = Workload::default();
-    while wl.bytes.len() < sw.target_len && wl.toks.len() < 4096 {
+    while wl.bytes.len() < sw.target_len && wl.toks.len() < 40_000 {
         let kind = ALL_KINDS[rng.weighted(&sw.weights)];
         let start = wl.bytes.len();
         token(rng, kind, flavor, &mut wl.bytes);
